@@ -337,10 +337,15 @@ func (p *Properties) UnpackWillProperties(bufr *bytes.Buffer) error {
 // of bytes used to store the Prop data and any error in decoding them
 func (p *Properties) Unpack(bufr *bytes.Buffer, packetType byte) error {
 	var err error
-	// the Property Length may be omitted at the end of a short packet (e.g. a DISCONNECT or
-	// PUBACK that only carries a reason code): that means no properties
+	// the Property Length may be omitted at the end of a short PUBACK, PUBREC, PUBREL, PUBCOMP,
+	// DISCONNECT or AUTH packet (one that only carries a reason code): that means no properties.
+	// In every other packet the Property Length is mandatory.
 	if bufr.Len() == 0 {
-		return nil
+		switch packetType {
+		case PUBACK, PUBREC, PUBREL, PUBCOMP, DISCONNECT, AUTH:
+			return nil
+		}
+		return codes.ErrMalformed
 	}
 	length, err := EncodeRemainLength(bufr)
 	// 整个buffer最多只能读到length这么长
